@@ -74,6 +74,20 @@ func vp_C02_sign_verify() {
 		vpAssert("second-verifies", VerifyJSON("second.example", "ed25519:k9", pub2, signed2) == nil)
 	}
 
+	// the same entity signs again with a rotated key: the signature under the first key ID stays
+	pub3B, priv3B := vpKey("signer-rotated")
+	signed3, err := SignJSON("signer.example", "ed25519:k2", ed25519.PrivateKey(priv3B), signed)
+	vpAssert("rotated-sign-succeeds", err == nil)
+	if err == nil {
+		vpAssert("first-key-still-verifies-after-rotation", VerifyJSON("signer.example", "ed25519:k1", pub, signed3) == nil)
+		vpAssert("rotated-key-verifies", VerifyJSON("signer.example", "ed25519:k2", ed25519.PublicKey(pub3B), signed3) == nil)
+		ids3, _ := ListKeyIDs("signer.example", signed3)
+		vpAssert("both-key-ids-listed", len(ids3) == 2)
+	}
+	// re-signing with the same key ID replaces that signature only
+	signed4, err := SignJSON("signer.example", "ed25519:k1", priv, signed)
+	vpAssert("re-sign-same-key", err == nil && VerifyJSON("signer.example", "ed25519:k1", pub, signed4) == nil)
+
 	// mutations of the signed object (as a member map re-serialised)
 	mut := vpChoice("mutation", "change-unsigned", "change-member", "add-member", "delete-member")
 	var m map[string]spec.RawJSON
